@@ -208,6 +208,24 @@ def _raw_index(events, model_index, keep, no_dedupe_pins) -> int:
     return len(events)
 
 
+def outside_domain(res: dict) -> str | None:
+    """The generators promise small integers and short strings (16-bit int / 2 KB RAM on the AVR); a program whose CPython
+    run leaves that domain is discarded, not judged."""
+    for e in res.get("py_events", []):
+        if e[0] == "SER":
+            if e[2] is not None and abs(e[2]) > 1e8:
+                return "integer magnitude > 1e8"
+            if isinstance(e[1], str) and len(e[1]) > 1500:
+                return "string longer than 1500 characters"
+    live = res.get("live") or []
+    if live and max(live) > 20000:
+        return "live data > 20000 bytes"
+    for a, b, c in res.get("san_reports") or []:
+        if "signed integer overflow" in b:
+            return "signed integer overflow in the firmware (values left the int range)"
+    return None
+
+
 def hazards_before(res: dict) -> list[str]:
     """Hazard kinds dynamically triggered at or before the first divergence (all, when no divergence)."""
     limit = res.get("py_div_index")
